@@ -276,6 +276,8 @@ def determine(value):
     d = 3
     for x in range(2, 5):
         d += 2 ** x
-        if scaled == 2.0 ** x / d:
+        # (matched on range like the values above: a value that went through
+        # add() or subtract() is a few ulps off the one dots() builds)
+        if abs(scaled - 2.0 ** x / d) <= 1e-9:
             return (v, x, 1, 1)
     return (base_values[i + 1], 0, 1, 1)
